@@ -87,6 +87,16 @@ def violations(graph, documents, subclass_of=None):
             elif not _same(lits[0], v):
                 out.append(("exported-attribute-has-another-value", (kind, attr, repr(v), repr(lits[0].toPython()))))
         have.pop(NS + "hasFileName", None)
+        # a repository is exported as a link to a terminology node typed by the URL
+        repo = getattr(obj, "repository", None) if kind != "property" else None
+        terms = list(graph.objects(node, _u(NS + "hasTerminology")))
+        if repo:
+            if len(terms) != 1:
+                out.append(("set-attribute-not-exported-exactly-once", (kind, "repository", repr(repo), len(terms))))
+            elif (terms[0], rdf_type, _u(repo)) not in graph:
+                out.append(("exported-attribute-has-another-value", (kind, "repository", repr(repo), str(terms[0]))))
+        elif terms:
+            out.append(("attribute-exported-although-unset", (kind, "repository")))
         if have:
             out.append(("unexpected-literal-predicates", (kind, sorted(have))))
         return node
